@@ -48,7 +48,7 @@ TEXT = {
               "params store untouched), legacy_route_valid, validate_adds_nothing_* (every rule lives in one field validator), closed "
               "forms of the rules, model_step_monitors. The validators are modelled by hand from x/*/types/params.go; the "
               "correspondence run sends every message through app.MsgServiceRouter() under branch/recover/commit with every field at, "
-              "inside and outside its range and 11 kinds of authority strings, and compares verdict, the handler's partially written "
+              "inside and outside its range and 10 kinds of authority strings, and compares verdict, the handler's partially written "
               "branch, all five stored sets, pair count, port and whole-store digests."),
         note=COMMON_NOTE + "The regenerated handler/validator tables of DESIGN section 4 (factx) are not built; the order 'authority, "
              "Validate, per-field validate+write' is tied to the code by observing the handler's branch at rejection instead. "
